@@ -31,7 +31,7 @@ var R = hx.NewRecorder("C08", "cases = attacker catalogue x GMSSL suite x client
 func TestMain(m *testing.M) {
 	for _, k := range []string{"sign_cert_wrong_key", "enc_cert_wrong_key", "untrusted", "expired", "future", "wrongname", "enc_expired", "rsa_sign_cert", "rsa_enc_cert", "swapped", "client_wrong_key", "client_untrusted", "client_expired",
 		"ske_omitted", "ske_other_key", "ske_other_randoms", "ske_other_enccert", "ske_garbage", "cv_omitted", "cv_other_key", "cv_replayed", "cv_chain_confusion", "ske_sig_not_der", "cv_sig_not_der", "finished_wrong",
-		"mitm_byte", "mitm_suites", "mitm_ske_replay", "mitm_cke_replay", "mitm_cert_swap", "mitm_cert_attacker", "baseline", "tls_server_name", "enc_cert_twice", "sign_cert_twice"} {
+		"mitm_byte", "mitm_suites", "mitm_ske_replay", "mitm_cke_replay", "mitm_cert_swap", "mitm_cert_attacker", "baseline", "tls_server_name", "enc_cert_twice", "sign_cert_twice", "sign_cert_enc_key"} {
 		R.Require("attack:" + k)
 	}
 	R.Require("suite:e013", "suite:e053", "skipverify")
@@ -49,7 +49,7 @@ func wrongKey(id *tlsx.Ident, other *tlsx.Ident) gmtls.Certificate {
 func TestC08_MisconfiguredPeers(t *testing.T) {
 	p := tlsx.GetPKI()
 	n := 0
-	serverAttacks := []string{"baseline", "sign_cert_wrong_key", "enc_cert_wrong_key", "untrusted", "expired", "future", "wrongname", "enc_expired", "rsa_sign_cert", "rsa_enc_cert", "swapped", "enc_cert_twice", "sign_cert_twice"}
+	serverAttacks := []string{"baseline", "sign_cert_wrong_key", "enc_cert_wrong_key", "untrusted", "expired", "future", "wrongname", "enc_expired", "rsa_sign_cert", "rsa_enc_cert", "swapped", "enc_cert_twice", "sign_cert_twice", "sign_cert_enc_key"}
 	clientAttacks := []string{"baseline", "client_wrong_key", "client_untrusted", "client_expired"}
 	hx.Check(t, hx.N(300, 4000), func(t *rapid.T) {
 		n++
@@ -98,6 +98,9 @@ func TestC08_MisconfiguredPeers(t *testing.T) {
 				sign = enc
 			case "sign_cert_twice":
 				enc = sign
+			case "sign_cert_enc_key":
+				// the genuine signing certificate, but the key exchange is signed with the (escrowed) ENCRYPTION key
+				sign = wrongKey(p.SrvSign, p.SrvEnc)
 			}
 			sc.Certificates = []gmtls.Certificate{sign, enc}
 		} else {
@@ -226,6 +229,9 @@ func TestC08_ScriptedAttackers(t *testing.T) {
 				so.SigMangle = notStrictDER(t)
 			case "ske_other_key":
 				so.SKESignD = p.SrvSignBad.SM2D
+				if rapid.Bool().Draw(t, "encKeySigns") {
+					so.SKESignD = p.SrvEnc.SM2D // the other key of the same server: still not the certified signing key
+				}
 			case "ske_other_randoms":
 				so.SKEInputOverride = func(cr, sr, enc []byte) []byte {
 					x := append([]byte{}, sr...)
